@@ -97,6 +97,54 @@ class Top(Component):
 """
 
 
+POLARITY_SRC = """
+from pymtl3 import *
+class PChild(Component):
+  def construct(s):
+    s.in_ = InPort(8); s.out = OutPort(8)
+    @update_ff
+    def ff():
+      if ~s.reset: s.out <<= 3
+      else: s.out <<= s.out + s.in_
+class PTop(Component):
+  def construct(s):
+    s.in_ = InPort(8); s.cnt = OutPort(8); s.sum = OutPort(8)
+    s.c = PChild(); s.c.in_ //= s.in_
+    @update_ff
+    def ff_cnt():
+      if ~s.reset: s.cnt <<= 0
+      else: s.cnt <<= s.cnt + 1
+    @update
+    def up_sum():
+      s.sum @= s.cnt + s.c.out
+"""
+
+
+def run_reset_polarity_probe(sh, k):
+  """an ACTIVE-LOW reset (the pass-group option reset_active_high=False): sim_reset() holds reset at 0 and releases it to 1; the
+  registers start from their reset values and count from there - the same trace under every pass group that takes the option"""
+  from pymtl3 import DefaultPassGroup
+  from pymtl3.passes.mamba.PassGroups import UnrollSim, HeuTopoUnrollSim, Mamba2020
+  rng = sh.rng("polarity", k)
+  mod = G.load_source(POLARITY_SRC, "c01pol")
+  try:
+    ins = [rng.getrandbits(8) for _ in range(6)]
+    for nm, pg in (("default", lambda: DefaultPassGroup(reset_active_high=False)), ("unroll", lambda: UnrollSim(print_line_trace=False, reset_active_high=False)),
+                   ("heutopo", lambda: HeuTopoUnrollSim(print_line_trace=False, reset_active_high=False)), ("mamba", lambda: Mamba2020(print_line_trace=False, reset_active_high=False))):
+      top = mod.PTop(); top.elaborate(); top.apply(pg()); top.sim_reset()
+      cnt, acc, got, want = 0, 3, [], []
+      for v in ins:
+        top.in_ @= v; top.sim_eval_combinational()
+        got.append((int(top.cnt), int(top.c.out), int(top.sum), int(top.reset))); want.append((cnt, acc, (cnt + acc) & 255, 1))
+        top.sim_tick(); cnt = (cnt + 1) & 255; acc = (acc + v) & 255
+      sh.count("active_low_reset_traces_checked")
+      if got != want:
+        sh.violation("active-low-reset-trace-differs-from-the-dataflow-equations", {"pass_group": nm, "option": "reset_active_high=False", "inputs": ins,
+                     "got(cnt, c.out, sum, reset)": got, "expected": want}, case=("polarity", nm)); return
+  finally:
+    G.unload(mod)
+
+
 def run_two_names_probe(sh, k):
   """one signal object under two attribute names of its component: the design is refused, or both names denote one value under
   every pass group (out = in_ + 2)"""
@@ -123,6 +171,7 @@ def run_two_names_probe(sh, k):
 def run_shard(sh):
   q = sh.tier == "quick"
   run_two_names_probe(sh, sh.idx)
+  if sh.idx % 4 == 0: run_reset_polarity_probe(sh, sh.idx)
   if sh.idx == 0:
     for k in range(3): run_alias_probe(sh, k)
   for case in range(sh.params["designs"]):
